@@ -78,6 +78,7 @@ type ctlWorld struct {
 
 type ctlJob struct {
 	fn       scheduler.JobFunc
+	runtime  scheduler.RuntimeFunc
 	ctx      context.Context
 	periodic bool
 }
@@ -98,13 +99,22 @@ func (s *ctlSched) ScheduleJob(ctx context.Context, _ string, name string, _ tim
 	return nil
 }
 
-func (s *ctlSched) SchedulePeriodicJob(ctx context.Context, _ string, name string, _ scheduler.RuntimeFunc, job scheduler.JobFunc) error {
+// SchedulePeriodicJob: like the real scheduler it starts the job's goroutine at
+// once, and that goroutine begins by asking the runtime function when to run;
+// after every run the runtime function is asked again on the job's goroutine
+// (see fire).
+func (s *ctlSched) SchedulePeriodicJob(ctx context.Context, _ string, name string, runtime scheduler.RuntimeFunc, job scheduler.JobFunc) error {
 	s.mu.Lock()
 	defer s.mu.Unlock()
 	if _, ok := s.jobs[name]; ok {
 		return scheduler.ErrJobAlreadyExists
 	}
-	s.jobs[name] = &ctlJob{fn: job, ctx: ctx, periodic: true}
+	s.jobs[name] = &ctlJob{fn: job, runtime: runtime, ctx: ctx, periodic: true}
+	s.wg.Add(1)
+	go func() {
+		defer s.wg.Done()
+		_, _ = runtime(ctx)
+	}()
 	return nil
 }
 
@@ -181,6 +191,9 @@ func (s *ctlSched) fire(name string) bool {
 		return false
 	}
 	j.fn(j.ctx)
+	if j.periodic {
+		_, _ = j.runtime(j.ctx)
+	}
 	return true
 }
 
